@@ -549,12 +549,16 @@ def W.shrinkPool (w : W) (toRemove : Nat) : W :=
 
 def GLOBAL_WORKER_POOL_MAXIMUM : Nat := 1000000
 
-/-- the backlog flush at the end of a growing `resize_pool` -/
+/-- the backlog flush at the end of a growing `resize_pool`: as long as it makes progress
+(fuel ≥ queue length; every continued iteration shortens the queue) -/
 def W.flushAfterGrow : Nat → W → W
   | 0, w => w
   | n + 1, w =>
-    if (qPeek w.cfg w.queue).isNone then w
-    else W.flushAfterGrow n (w.tryRouteNextActiveJob none)
+    let backlog := w.queue.length
+    if backlog == 0 then w
+    else
+      let w' := w.tryRouteNextActiveJob none
+      if w'.queue.length ≥ backlog then w' else W.flushAfterGrow n w'
 
 def W.resizePool (w : W) (requested : Nat) : W :=
   if requested == 0 then w
@@ -563,7 +567,7 @@ def W.resizePool (w : W) (requested : Nat) : W :=
     let n := min GLOBAL_WORKER_POOL_MAXIMUM requested
     let w := if n > cur then w.growPool (n - cur) else if n < cur then w.shrinkPool (cur - n) else w
     let w := { w with poolSize := n }
-    if n > cur then W.flushAfterGrow n w else w
+    if n > cur then W.flushAfterGrow (w.queue.length + 1) w else w
 
 /-- `is_drained` -/
 def W.isDrained (w : W) : Bool × W :=
@@ -630,6 +634,18 @@ def W.updateSettings (w : W) (disc : Option (Option (Nat × Mode))) (n : Option 
   | some n => w.resizePool n
   | none => w
 
+/-- `retire_idle_draining_worker`: `some` = retired -/
+def W.retireIdleDrainingWorker (w : W) (wid : Nat) : Option W :=
+  match getW w.pool wid with
+  | some p =>
+    if p.draining && !p.isWorking then
+      some { w with
+        pool := removeW w.pool wid
+        byActor := w.byActor.filter (fun (x : Nat × Nat) => x.1 != p.actor)
+        env := w.env.stop p.actor }
+    else none
+  | none => none
+
 /-- `handle_supervisor_evt` (ActorTerminated / ActorFailed: same code) -/
 def W.handleSupervisorEvt (w : W) (who : Nat) : W :=
   match w.byActor.find? (·.1 == who) with
@@ -646,9 +662,12 @@ def W.handleSupervisorEvt (w : W) (who : Nat) : W :=
         env := e
         pool := setW w.pool p
         byActor := (w.byActor.filter (fun (x : Nat × Nat) => x.1 != who)) ++ [(naid, wid)] }
-      let w := w.tryRouteNextActiveJob (some wid)
-      if (match getW w.pool wid with | some p => p.isAvailable | none => false) then w.availChange wid true
-      else w
+      match w.retireIdleDrainingWorker wid with
+      | some w => w
+      | none =>
+        let w := w.tryRouteNextActiveJob (some wid)
+        if (match getW w.pool wid with | some p => p.isAvailable | none => false) then w.availChange wid true
+        else w
 
 /-- `post_stop` -/
 def W.postStop (w : W) : W :=
